@@ -84,9 +84,10 @@ fn vle_case(cases: &[PureCase], tcs: &[Option<(f64, f64)>], c: &TCase, rec: &mut
             let pe = ((vp.vapor().pressure(Contributions::Total) - p) / p).into_value().abs();
             rec.check("spec_echo", "p", pe / 1e-9, true, || format!("pure(p) returns a state at p off by {pe:e}"));
         }
-        // the inverse relation is conditional on both calls returning; the success clause of the property
-        // covers the temperature specification only
-        Err(e) => rec.skip(&format!("pure(p) fails at the saturation pressure: {}", e.to_string().chars().take(40).collect::<String>())),
+        // "solving at given T and at the resulting p are mutually inverse": at a pressure that IS the saturation pressure of a
+        // temperature inside the range the pressure specification has a solution, so a failure is a violation (the failures of
+        // the pinned tree are listed as findings, one per record and temperature)
+        Err(e) => rec.require("inverse_found", "", false, || format!("{}: {}: pure(p) fails at p = p_sat(Tr = {:.4}) = {p}: {e}", pc.file, pc.name, c.tr)),
     }
     // helper entry points agree with pure
     if let Some(Some(pv)) = PhaseEquilibrium::vapor_pressure(&eos, tq).first() {
